@@ -52,6 +52,7 @@ class Obs(object):
         self.inputs_before = None
         self.inputs_after = None
         self.raised_inside = None
+        self.rng_after = None
 
 
 for _obj, _name in ((_M.Model, "interpolate_mini_models_svd"), (_M.Model, "shift_base"), (_S, "solve_main"),
@@ -427,6 +428,7 @@ def run_solve(case, iter_hook=None, dykstra_log=None, x0_override=None, np_seed=
         o.warnings = [str(x.message) for x in w][:50]
     finally:
         _CUR[0] = None
+        o.rng_after = np.random.get_state()
         if dykstra_log is not None:
             dykstra_log.uninstall()
     o.inputs_after = (x0, kw.get("bounds"), kw.get("user_params"))
@@ -793,7 +795,7 @@ def scenarios(draw, prof=None):
     if prof.get("noise_flag", True) and draw(st.integers(0, 3)) == 0:
         case["noise_flag"] = True
         tags.append("noise-flag")
-    if draw(st.floats(0, 1)) < prof["diag"]:
+    if prof["diag"] >= 1.0 or draw(st.floats(0, 1)) < prof["diag"]:
         up["logging.save_diagnostic_info"] = True
         up["logging.save_poisedness"] = draw(st.integers(0, 7)) == 0
     if prof["reg"] and draw(st.floats(0, 1)) < prof["reg"] and not case["scaling"]:
